@@ -32,7 +32,10 @@ def unwrap(v):
     if isinstance(v, SV):
         return v.t if v.nan is None else v      # possibly-NaN reals stay cells
     if isinstance(v, tuple):
-        return tuple(unwrap(x) for x in v)
+        u = tuple(unwrap(x) for x in v)
+        if all(a is b for a, b in zip(u, v)):
+            return v
+        return type(v)(*u) if hasattr(type(v), "_fields") else u       # a NamedTuple keeps its class (attribute access)
     return v
 
 
@@ -41,7 +44,9 @@ def wrap(v):
         return SV(v)
     if isinstance(v, tuple):
         w = tuple(wrap(x) for x in v)
-        return v if all(a is b for a, b in zip(w, v)) else w
+        if all(a is b for a, b in zip(w, v)):
+            return v
+        return type(v)(*w) if hasattr(type(v), "_fields") else w
     if isinstance(v, list):
         w = [wrap(x) for x in v]
         return v if all(a is b for a, b in zip(w, v)) else w       # identity of plain containers is preserved
@@ -784,6 +789,9 @@ class ConcKit(KitBase):
         for pth in parts[:-1]:
             owner = getattr(owner, pth, None)
         name = parts[-1] if parts else None
+        import builtins as _bi
+        if getattr(_bi, getattr(target, "__name__", ""), None) is target:
+            owner, name = _bi, target.__name__          # a builtin (open, ...): module globals fall back to builtins
         if owner is None or name is None or owner.__dict__.get(name) is None:
             return thunk()              # cannot be replaced natively (e.g. a property getter): the real function runs
         orig = owner.__dict__[name]
@@ -793,11 +801,24 @@ class ConcKit(KitBase):
         def repl(*a, **k):
             r = replacement(*a, **k)
             return target(*a, **k) if r is DECLINE else r
+        # names bound by `from module import target` in other repository modules refer to the same object
+        aliases = []
+        if owner is mod and mod is not None:
+            for m in list(sys.modules.values()):
+                if m is None or m is mod or not getattr(m, "__name__", "").startswith(mod.__name__.split(".")[0] + "."):
+                    continue
+                for n, v in list(getattr(m, "__dict__", {}).items()):
+                    if v is target:
+                        aliases.append((m, n))
         setattr(owner, name, repl)
+        for m, n in aliases:
+            setattr(m, n, repl)
         try:
             return thunk()
         finally:
             setattr(owner, name, orig)
+            for m, n in aliases:
+                setattr(m, n, orig)
 
     def native_attr(self, obj, name):
         return getattr(obj, name)
